@@ -8,6 +8,10 @@ Relations
               at the run's first draw, .bp bytes and the parsed VCF/BCF/PGEN content.
   phenotype : the same for simphenotype; observed: the state of PhenoSimulator.rng after
               construction and before/after every replicate, the noise vectors, .pheno bytes.
+  replicates: one simphenotype run with 2-6 replications (simulate_pt or the CLI, seeds incl. 0 and none, with and
+              without prevalence) with the simulator's public rng wrapped by a recorder; observed: the float noise
+              vector every replicate drew, the columns of the written .pheno, the consecutive draws of a COPY of the
+              generator taken after construction, and the genetic component (same command, noise forced to zero).
 """
 import hashlib
 import os
@@ -22,24 +26,30 @@ from .core import Relation, err_kind
 
 PROP = "C10"
 CLAIMED = True
-COQ_MODULES = ["C10_Check", "C10_Proofs"]
+COQ_MODULES = ["Stats", "C10_Model", "C10_Check", "C10_Proofs"]
 PROPERTY_MODULE = "C10_Property"
 ALLOWED_AXIOMS = []
 RULE = (
     "a double run is non-trivial when a seed is given, both runs completed and the two runs started from "
     "different process states (different global generator positions; a default_rng consumed in between); "
     "simgenotype: at least one admixed generation or >= 2 populations so that draws matter; "
-    "simphenotype: >= 1 replicate with noise variance > 0. Distinct = distinct canonical JSON of the input."
+    "simphenotype: >= 1 replicate with noise variance > 0; replicates: >= 2 replicates, every one observed with "
+    "noise variance > 0 and >= 2 samples. Distinct = distinct canonical JSON of the input."
 )
 TRUSTED = [
     "numpy's bit generators are deterministic functions of their state (the abstract generator of the model); "
     "generator states are compared through SHA-256 of get_state() / bit_generator.state",
     "PYTHONHASHSEED is fixed per process by ./check; cross-process equality is not part of the quick tier",
     "pysam / pgenlib return the stored records (content comparison of VCF/BCF/PGEN outputs)",
+    "replicates: the genetic component is observed by running the same command once more with the noise forced to "
+    "zero; comparisons of a float sum with the exact sum use a 1e-9 tolerance relative to the operands (as C09)",
 ]
 ASSUMPTIONS = [
     "'independent draws, not copies' is read structurally (DESIGN.md section 10): one generator, threaded through "
-    "the replicates, never re-created; the noise vectors of the replicates are pairwise different when variance > 0",
+    "the replicates, never re-created; the noise vectors of the replicates are pairwise different when variance > 0; "
+    "every replicate column is (the run's one genetic component) + (the noise vector drawn in THAT replicate): "
+    "column_k - noise_k is the same vector for all k; case/control: the cases of replicate k are a top set of "
+    "genetic component + noise_k",
 ]
 SEEDS = [0, 1, 42, 2**32 - 1]
 
@@ -86,22 +96,42 @@ def gen_history(rng):
 
 
 class FirstDraw:
-    """records the global generator's state at the first np.random.* draw after start()"""
+    """records the global generator's state at the first np.random.* draw after start(), and a running hash of
+    EVERY call (function name, global state before the call) of the legacy np.random API made during the run -
+    all sampling functions bound to the global RandomState, and seed / set_state (a re-seeding in mid-run)"""
 
-    NAMES = ["choice", "randint", "rand", "shuffle", "random", "normal", "permutation", "uniform", "random_sample"]
+    SKIP = {"get_state"}
 
     def __init__(self):
         self.first = None
-        self.saved = {n: getattr(np.random, n) for n in self.NAMES}
+        self.n = 0
+        self.h = hashlib.sha256()
+        glob = np.random.mtrand._rand
+        self.saved = {}
+        for n in dir(np.random):
+            f = getattr(np.random, n)
+            if n.startswith("_") or n in self.SKIP or not callable(f) or getattr(f, "__self__", None) is not glob:
+                continue
+            self.saved[n] = f
         for n, f in self.saved.items():
-            setattr(np.random, n, self._wrap(f))
+            setattr(np.random, n, self._wrap(n, f))
 
-    def _wrap(self, f):
+    def _wrap(self, name, f):
         def g(*a, **k):
-            if self.first is None:
-                self.first = global_state_hash()
+            if name in ("seed", "set_state"):
+                # the state BEFORE a re-seeding is the history; what is recorded is the re-seeding itself
+                self.h.update(f"{name}:{a!r}{k!r};".encode() if name == "seed" else b"set_state;")
+            else:
+                st = global_state_hash()
+                if self.first is None:
+                    self.first = st
+                self.n += 1
+                self.h.update(f"{name}:{st};".encode())
             return f(*a, **k)
         return g
+
+    def trace(self):
+        return f"{self.n}:{self.h.hexdigest()}"
 
     def close(self):
         for n, f in self.saved.items():
@@ -259,6 +289,8 @@ def one_grun(inp, d, tag, mode, ref, model):
     finally:
         rec.close()
     res["start"] = rec.first
+    res["trace"] = rec.trace()
+    res["end"] = global_state_hash()
     outs = []
     bp = prefix + ".bp"
     outs.append(sha(open(bp, "rb").read()) if os.path.exists(bp) else "no-bp")
@@ -363,11 +395,12 @@ class GenotypeRel(Relation):
         it = L.Interner()
         it("__none__")
         if not isinstance(obs, dict) or "a" not in obs:
-            return f"(mkg {L.opt(inp['seed'], L.z)} 0 (mkgrun 1 (-97) []) (mkgrun 1 (-97) []))"
+            return f"(mkg {L.opt(inp['seed'], L.z)} 0 (mkgrun 1 (-97) (-97) (-97) []) (mkgrun 1 (-97) (-98) (-98) []))"
 
         def run(r):
             start = it(r["start"]) if r["start"] is not None else -97
-            return f"(mkgrun {L.z(it(r['pre']))} {L.z(start)} {L.zl([it(x) for x in r['out']])})"
+            return (f"(mkgrun {L.z(it(r['pre']))} {L.z(start)} {L.z(it('trace:' + r['trace']))} {L.z(it(r['end']))} "
+                    f"{L.zl([it(x) for x in r['out']])})")
         ref = it(obs["ref"]) if obs["ref"] is not None else 0
         return f"(mkg {L.opt(inp['seed'], L.z)} {L.z(ref)} {run(obs['a'])} {run(obs['b'])})"
 
@@ -706,7 +739,265 @@ class PhenotypeRel(Relation):
                 + ("; replicates are copies of each other" if copies else ""))
 
 
-RELATIONS = [GenotypeRel(), PhenotypeRel()]
+# ---------------------------------------------------------------------------
+# the replicates of ONE simphenotype run, on the values
+
+
+class NoiseRecorder:
+    """stands in for the simulator's public `rng`: every sampling call goes to the real generator and is recorded
+    (method, scale, the float values returned); zero=True hands zeros to the simulator instead (genetic component)"""
+
+    def __init__(self, g, log, zero=False):
+        self._g, self._log, self._zero = g, log, zero
+
+    def normal(self, loc=0.0, scale=1.0, size=None):
+        sc = float(np.max(scale))
+        r = self._g.normal(loc, scale if sc == sc and sc >= 0 else 1.0, size=size)
+        if self._zero:
+            r = np.zeros_like(r)
+        self._log.append({"m": "normal", "loc": float(np.max(loc)), "scale": sc,
+                          "v": [float(x) for x in np.asarray(r, dtype=np.float64).reshape(-1)]})
+        return r
+
+    @property
+    def bit_generator(self):
+        return self._g.bit_generator
+
+    def __getattr__(self, k):
+        f = getattr(self._g, k)
+        if callable(f) and not k.startswith("_"):
+            def g(*a, **kw):
+                self._log.append({"m": k})
+                return f(*a, **kw)
+            return g
+        return f
+
+
+def copy_generator(g):
+    """a generator of the same kind in the same state (the original is not touched)"""
+    bg = g.bit_generator
+    c = type(bg)()
+    c.state = bg.state
+    return np.random.Generator(c)
+
+
+def pheno_table(path):
+    rows = [ln.rstrip("\n").split("\t") for ln in open(path) if not ln.startswith("#")]
+    if not rows:
+        return []
+    return [[float(r[j]) for r in rows] for j in range(1, len(rows[0]))]
+
+
+def one_rrun(inp, d, tag, mode, gt, hp, zero):
+    """one simphenotype run (zero: one replicate, no prevalence, noise forced to zero)"""
+    from pathlib import Path
+
+    import haptools.sim_phenotype as sp
+
+    out = os.path.join(d, f"{tag}.pheno")
+    res = {"err": None, "sims": 0, "calls": [], "copy": None, "rng": None}
+    log = []
+    cls = sp.PhenoSimulator
+    init, run = cls.__init__, cls.run
+
+    def init2(self, *a, **k):
+        init(self, *a, **k)
+        res["sims"] += 1
+        res["copy"] = copy_generator(self.rng)
+        res["rng"] = self.rng
+        self.rng = NoiseRecorder(self.rng, log, zero)
+
+    def run2(self, *a, **k):
+        n0 = len(log)
+        try:
+            return run(self, *a, **k)
+        finally:
+            res["calls"].append(log[n0:])
+
+    cls.__init__, cls.run = init2, run2
+    reps = 1 if zero else inp["reps"]
+    prev = None if zero else inp["prevalence"]
+    try:
+        if mode == "py":
+            sp.simulate_pt(Path(gt), Path(hp), reps, inp["environment"], inp["heritability"], prev,
+                           inp["normalize"], None, None, None, None, None, inp["seed"], Path(out), None)
+        else:
+            from click.testing import CliRunner
+            from haptools.__main__ import main
+
+            args = ["simphenotype", gt, hp, "--replications", str(reps), "--output", out, "--verbosity", "CRITICAL"]
+            if inp["seed"] is not None:
+                args += ["--seed", str(inp["seed"])]
+            for opt, val in (("--heritability", inp["heritability"]), ("--environment", inp["environment"]), ("--prevalence", prev)):
+                if val is not None:
+                    args += [opt, repr(val)]
+            args.append("--normalize" if inp["normalize"] else "--no-normalize")
+            r = CliRunner().invoke(main, args, catch_exceptions=True)
+            if r.exception is not None and not (isinstance(r.exception, SystemExit) and r.exit_code == 0):
+                raise r.exception
+    except BaseException as e:  # noqa
+        res["err"] = {"cls": type(e).__name__, "kind": err_kind(e) if isinstance(e, Exception) else 10, "msg": str(e)[:160]}
+    finally:
+        cls.__init__, cls.run = init, run
+    res["cols"] = pheno_table(out) if os.path.exists(out) else []
+    return res
+
+
+def run_replicates(inp):
+    d = tempfile.mkdtemp(prefix="hv_c10r_")
+    try:
+        gt, hp = write_pinputs(inp, d)
+        disturb(inp["histA"])
+        z = one_rrun(inp, d, "Z", "py", gt, hp, True)
+        disturb(inp["histB"])
+        a = one_rrun(inp, d, "A", inp["mode"], gt, hp, False)
+        if z["err"] or a["err"]:
+            return {"failed": (z["err"] or a["err"])}
+        if z["sims"] != 1 or len(z["cols"]) != 1 or a["sims"] != 1:
+            return {"unobserved": "not exactly one PhenoSimulator per run / no column from the zero-noise run"}
+        calls = a["calls"]
+        if any(len(c) != 1 or c[0]["m"] != "normal" or c[0]["loc"] != 0.0 for c in calls):
+            return {"unobserved": "a replicate did not make exactly one rng.normal(0, ...) request"}
+        if len(calls) != len(a["cols"]):
+            return {"unobserved": "number of run() calls differs from the number of columns written"}
+        ref = a["copy"]
+        reps = []
+        for c, col in zip(calls, a["cols"]):
+            n = len(c[0]["v"])
+            sc = c[0]["scale"]
+            rv = ref.normal(0, sc if sc == sc and sc >= 0 else 1.0, size=n)
+            reps.append({"scale": sc, "noise": c[0]["v"], "ref": [float(x) for x in rv], "col": col})
+        end_same = gen_state_hash(ref) == gen_state_hash(a["rng"])
+        return {"ok": {"g": z["cols"][0], "reps": reps, "end_same": bool(end_same)}}
+    finally:
+        shutil.rmtree(d, ignore_errors=True)
+
+
+def gen_rconfig(rng):
+    c = gen_pconfig(rng)
+    n = int(rng.integers(3, 9))
+    c["n"] = n
+    c["gts"] = [col[:n] if len(col) >= n else col + [[int(rng.integers(0, 2)), int(rng.integers(0, 2))] for _ in range(n - len(col))]
+                for col in c["gts"]]
+    c["reps"] = int(rng.integers(2, 7))
+    c["mode"] = str(rng.choice(["py", "cli"]))
+    c["prevalence"] = None if rng.random() < 0.55 else float(rng.choice([0.25, 0.5, 0.75, 0.4, 0.6]))
+    c["seed"] = None if rng.random() < 0.1 else int(rng.choice(SEEDS)) if rng.random() < 0.8 else int(rng.integers(0, 2**32 - 1))
+    return c
+
+
+class ReplicatesRel(Relation):
+    name = "replicates"
+    coq_module = "C10_Check"
+    coq_check = "check_replicates"
+    coq_case_type = "repcase"
+    coq_model = "model_replicates"
+    coq_imports = ["Stats", "C10_Model"]
+    budget = {"quick": 160, "thorough": 3000}
+    max_cases_per_shard = 40
+    anchors = [("haptools/sim_phenotype.py", "PhenoSimulator.__init__"), ("haptools/sim_phenotype.py", "PhenoSimulator.run"),
+               ("haptools/sim_phenotype.py", "simulate_pt"), ("haptools/__main__.py", "simphenotype")]
+
+    def preamble(self):
+        return "From Coq Require Import PrimFloat."
+
+    def generate(self, rng, n, tier):
+        out = []
+        for k in range(n):
+            c = gen_rconfig(rng)
+            if k < 4 * len(SEEDS):      # every named seed x {simulate_pt, CLI} x {quantitative, case/control}, every run
+                c["seed"] = SEEDS[k % len(SEEDS)]
+                c["mode"] = "py" if (k // len(SEEDS)) % 2 == 0 else "cli"
+                c["prevalence"] = None if k < 2 * len(SEEDS) else 0.5
+                c["reps"] = 2 + k % 5
+                if c["heritability"] == 1.0 or c["environment"] == 0.0:
+                    c["heritability"], c["environment"] = 0.5, None
+            out.append(c)
+        return out
+
+    def exhaustive(self, tier):
+        rng = np.random.default_rng(12)
+        out = []
+        for seed in SEEDS + [None]:
+            for mode in ("py", "cli"):
+                for prev in (None, 0.5):
+                    for reps in (2, 3, 6):
+                        c = gen_rconfig(rng)
+                        c.update(seed=seed, mode=mode, prevalence=prev, reps=reps)
+                        out.append(c)
+        return out
+
+    def run_impl(self, inp):
+        return run_replicates(inp)
+
+    def encode(self, inp, obs):
+        H = L.hexfloat
+        fl = lambda xs: L.lst(xs, H)
+        cc = L.b(inp["prevalence"] is not None)
+        if not isinstance(obs, dict) or "ok" not in obs:
+            # a run that failed outright is the business of C09 / the phenotype relation, not of this one
+            kind = 97 if not (isinstance(obs, dict) and "failed" in obs) else obs["failed"].get("kind", 99)
+            return f"(mkrc {L.z(inp['reps'])} {cc} [] false (Err {L.z(kind)}))"
+        o = obs["ok"]
+        reps = L.lst(o["reps"], lambda r: f"(mkrrep {H(r['scale'])} {fl(r['noise'])} {fl(r['ref'])} {fl(r['col'])})")
+        return f"(mkrc {L.z(inp['reps'])} {cc} {fl(o['g'])} {L.b(o['end_same'])} (Ok {reps}))"
+
+    @staticmethod
+    def _noisy(obs):
+        return (isinstance(obs, dict) and "ok" in obs and len(obs["ok"]["reps"]) >= 2
+                and all(r["scale"] > 0 and np.isfinite(r["scale"]) and len(r["noise"]) >= 2 for r in obs["ok"]["reps"]))
+
+    def nontrivial(self, inp, obs):
+        return self._noisy(obs)
+
+    def classes(self, inp, obs):
+        out = [f"seed={inp['seed'] if inp['seed'] in SEEDS or inp['seed'] is None else 'other'}", "mode=" + inp["mode"],
+               "fmt=" + inp["fmt"], "effects=" + inp["kind"], f"reps={inp['reps']}",
+               "case-control" if inp["prevalence"] is not None else "quantitative"]
+        if isinstance(obs, dict) and "ok" in obs:
+            out.append("noise>0" if self._noisy(obs) else "noise=0")
+        elif isinstance(obs, dict) and "failed" in obs:
+            out.append("run-failed:" + obs["failed"]["cls"])
+        else:
+            out.append("unobserved")
+        return out
+
+    def shrink(self, inp):
+        if inp["mode"] != "py":
+            yield dict(inp, mode="py")
+        if inp["fmt"] != "vcf.gz":
+            yield dict(inp, fmt="vcf.gz")
+        if inp["reps"] > 2:
+            yield dict(inp, reps=inp["reps"] - 1)
+        if len(inp["gts"]) > 1:
+            yield dict(inp, gts=inp["gts"][:-1], betas=inp["betas"][:-1])
+        if inp["n"] > 3:
+            yield dict(inp, n=inp["n"] - 1, gts=[col[:-1] for col in inp["gts"]])
+        for k in ("heritability", "environment", "prevalence"):
+            if inp[k] is not None:
+                yield dict(inp, **{k: None})
+        if not inp["normalize"]:
+            yield dict(inp, normalize=True)
+
+    def mutate(self, inp, rng):
+        for s in SEEDS:
+            yield dict(inp, seed=s)
+        for r in (2, 4, 6):
+            yield dict(inp, reps=r)
+        yield dict(inp, prevalence=None if inp["prevalence"] is not None else 0.5)
+
+    def signature(self, inp, obs):
+        if not (isinstance(obs, dict) and "ok" in obs):
+            return "simphenotype replicates: run failed or could not be observed"
+        o = obs["ok"]
+        ns = [tuple(r["noise"]) for r in o["reps"]]
+        if self._noisy(obs) and len(set(ns)) < len(ns):
+            return "simphenotype replicates received the same noise vector"
+        return ("simphenotype replicate columns are not (one genetic component) + (the noise drawn for that replicate)"
+                + (" [case/control]" if inp["prevalence"] is not None else ""))
+
+
+RELATIONS = [GenotypeRel(), PhenotypeRel(), ReplicatesRel()]
 
 LEVEL_TEXT = (
     "Coq theorems for EVERY generator (state machine S, reseed, draw) and every program drawing from it: with the "
